@@ -142,6 +142,9 @@ func judgeDiagnostics(cs *diagCase, v lab.Variant) (what string, sandwich bool) 
 		}
 	}
 	if len(other) > 0 {
+		if strings.Contains(other[0], ".go:") {
+			return fmt.Sprintf("[%s] generation of a syntactically valid grammar fails, the emitted code does not parse (a C08 defect surfacing here): %s", v.Flags(), other[0]), false
+		}
 		return fmt.Sprintf("[%s] unexpected message: %s", v.Flags(), other[0]), false
 	}
 	var missing, extra []string
